@@ -191,7 +191,12 @@ MATCHERS = {"element-actual-index-modified": m_index_modified}
 def run(tier):
     core.setup_psyclone_env()
     out = core.Outcome("C07", tier, "model_checking", matchers=MATCHERS)
-    fam = sem.TransFamily("C07", dom=DOM, fills=FILLS, live=LIVE, apps=apps)
+    dom, fills = DOM, FILLS
+    if tier != "quick":
+        dom = [("n", [0, 1, 2, 3, 4]), ("m", [1, 2, 3]), ("kout", [2, 4]), ("t", [[1, 2], [-3, 2]]),
+               ("u", [[3, 1], [0, 1]]), ("gcount", [5, 1])]
+        fills = [1, 2, 3, 4]
+    fam = sem.TransFamily("C07", dom=dom, fills=fills, live=LIVE, apps=apps)
     results = sem.build_family(fam, items(tier))
     for r in results:
         if r["status"] == "accepted":
